@@ -13,6 +13,8 @@
 #include "meta.h"
 #include "array.h"
 #include "vf.h"
+#include <algorithm>
+#include "cxx_itemarray.h"
 
 const char *vf_name = "c05_cxx";
 
@@ -344,7 +346,8 @@ static void case_refarray(vf_rng *r)
 static uint64_t n_typed(void) { return vf_thorough ? 400000 : 40000; }
 static uint64_t n_uniq(void) { return vf_thorough ? 200000 : 20000; }
 static uint64_t n_ref(void) { return vf_thorough ? 200000 : 20000; }
-uint64_t vf_cases(void) { return n_typed() + n_uniq() + n_ref(); }
+static uint64_t n_item(void) { return vf_thorough ? 200000 : 20000; }
+uint64_t vf_cases(void) { return n_typed() + n_uniq() + n_ref() + n_item(); }
 void vf_case(uint64_t idx, vf_rng *r)
 {
 	if (!live) live = (uint8_t *) calloc(MAXSER, 1);
@@ -354,5 +357,7 @@ void vf_case(uint64_t idx, vf_rng *r)
 	if (idx < n_typed()) { run_elems<mpt::typed_array<Elem>, false>(r, "typed_array"); return; }
 	idx -= n_typed();
 	if (idx < n_uniq()) { run_elems<mpt::unique_array<Elem>, true>(r, "unique_array"); return; }
-	case_refarray(r);
+	idx -= n_uniq();
+	if (idx < n_ref()) { case_refarray(r); return; }
+	ia::run(r, "cxxitem");
 }
